@@ -145,6 +145,13 @@ def oracle_seq(ctx, job, res, key):
                         ctx.violate(kk + '|stale', 'after a merge the correlation does not evaluate like one constructed afresh from its merged state (%s)' % pn,
                                     dict(job, step=k, T=bad[0]), 'as a fresh correlation', {'T': bad[:4]})
                         break
+            sd = r.get('self_dim') or {}
+            for nm in sd.get('cur', {}):
+                badT = [T for T, a, b in zip(sd['T'], sd['cur'][nm], sd['fresh'][nm]) if not same_val(a, b)] if 'cur' in sv else []
+                if badT:
+                    ctx.violate(kk + '|stale-dim', 'after a merge %s does not answer like a correlation constructed afresh from the merged state' % nm,
+                                dict(job, step=k, T=badT[0]), 'as a fresh correlation', {'T': badT[:4]})
+                    break
             if st.get('twice_of') is not None and now != prev and not conflicts:
                 ctx.violate(kk + '|idempotent', 'merging the same data twice changed the correlation', dict(job, step=k), prev, now)
         prev = now
